@@ -121,6 +121,30 @@ func doReplay(id, path string) int {
 		fmt.Printf("%s: witness %s no longer fails\n", id, path)
 		return 0
 	}
+	var tw run.TraceWitness
+	if err := json.Unmarshal(rec.Witness, &tw); err == nil && tw.TraceSeed != 0 {
+		c, err := run.NewCtx(id, "quick", "model_checking")
+		if err != nil {
+			fmt.Fprintln(os.Stderr, err)
+			return 2
+		}
+		defer c.Close()
+		if err := c.PrepareSpec(); err != nil {
+			fmt.Fprintln(os.Stderr, err)
+			return 2
+		}
+		bad, what, err := c.ReplayTraceWitness(&tw)
+		if err != nil {
+			fmt.Fprintln(os.Stderr, err)
+			return 2
+		}
+		if bad {
+			fmt.Printf("VIOLATION property=%s replay=%s\n  %s\n", id, path, what)
+			return 1
+		}
+		fmt.Printf("%s: witness %s no longer fails (%s)\n", id, path, what)
+		return 0
+	}
 	if fn, ok := replayers[id]; ok {
 		return fn(path, rec.Witness)
 	}
